@@ -146,6 +146,11 @@ fn scenario(cfg: &Cfg, track: bool) -> Out {
         let mut ncfg = NodeCfg::new(node_ip(j, cfg.public), 6881).server().bootstrap(&boots).id(id_class(perm[j], 0x3E));
         // every other node spells its bootstrap list with no_bootstrap() + extra_bootstrap()
         ncfg.via_extra_bootstrap = (j + cfg.perm + cfg.timing) % 2 == 1;
+        // every third node's list starts with entries that are not addresses at all (a port out
+        // of range, no port): the live server listed after them still counts
+        if (j + cfg.perm) % 3 == 2 {
+            ncfg.bootstrap_junk = vec![format!("{}:99999", dead.ip()), dead.ip().to_string()];
+        }
         let n = w.add_node(ncfg);
         nodes.push(n);
         addrs.push(w.node_addr(n));
